@@ -34,7 +34,12 @@ def ball_query(ctx, rule, qn, p, q, size_term, tag):
             ok = None
     elif r is None:
         ok = None
-    ctx.check(rule, "%s|radius|%s" % (qn, tag), ok, "the ball radius is size / 2", bad="the ball radius is %s (documented: half the window size)" % (show(r) if isinstance(r, tuple) else r), fn=qn)
+    why = "the ball radius is %s (documented: half the window size)" % (show(r) if isinstance(r, tuple) else r)
+    if ok is None and isinstance(r, tuple):
+        nc = [x for x, k_ in Q.narrowing_casts(r) if k_ == "narrowing"]
+        if nc:
+            ok, why = False, "the window size passes through the conversion %s before it is halved: for integer coordinates a fractional size is truncated and the window shrinks" % show(nc[0])[:70]
+    ctx.check(rule, "%s|radius|%s" % (qn, tag), ok, "the ball radius is size / 2", bad=why, fn=qn)
     pn = Q.arg(ctx, q, "p")
     okp = True if isinstance(pn, tuple) and canon(pn) in {canon(x) for x in INF} else (False if pn is None or (isinstance(pn, tuple) and is_const(pn)) else None)
     ctx.check(rule, "%s|infinity-norm|%s" % (qn, tag), okp, "the query uses the infinity norm (a closed square window)",
